@@ -77,7 +77,7 @@ TraceEst == /\ Step("Est")
 
 TraceEstBulk == /\ Step("EstBulk")
                 /\ LET e == Trace[l] IN
-                     /\ e.p \in 4..16 /\ e.n <= 5 * (2 ^ e.p)
+                     /\ e.p \in 4..16 /\ e.n <= 16 * (2 ^ e.p)
                      /\ EstOK(e.p, e.n, e.est)
                 /\ UNCHANGED vars
 
